@@ -314,6 +314,15 @@ def pipeline(job, trace_props=None, tag=""):
             cmd += ["--json-ui", "--trace"]
             for p in trace_props:
                 cmd += ["--property", p]
+        if degraded and not trace_props:
+            # nothing can be proved any more: look for ONE counterexample among the obligations of the specification
+            # (--stop-on-fail on that subset: one solver call on a sliced formula instead of one per obligation)
+            t1 = time.time()
+            info["checker_cmd"] = " ".join(cmd).replace(WORK + "/", "work/") + " --stop-on-fail --property <spec obligations>"
+            o = stop_on_fail(job, cmd, wd, log, spec_only=True)
+            info["stages"]["cbmc"] = round(time.time() - t1, 2)
+            info["wall"] = round(time.time() - t0, 2)
+            return ([o] if o else []), info
         rc, text, dt = run(cmd, job.timeout, mem_gb=job.mem_gb, stdout_path=out_txt)
         log.write("$ %s\nrc=%s %.1fs\n%s\n" % (" ".join(cmd), rc, dt, text[-2000:]))
         info["stages"]["cbmc"] = round(dt, 2)
@@ -372,7 +381,15 @@ def pipeline(job, trace_props=None, tag=""):
         log.close()
 
 
-def stop_on_fail(job, cmd, wd, log):
+def spec_obligation(job, prop, func, desc):
+    """obligations of the specification itself (harness assertions, contract clauses, GUARANTEEs, asserts of the stubs and
+    of the functions under contract) -- as opposed to generic safety checks of code that runs outside its contracts"""
+    pr = prop or ""
+    return (func == job.harness or ".precondition." in pr or ".postcondition." in pr or desc.startswith("GUARANTEE") or
+            (".assertion." in pr and (func in job.fuc or (func or "").startswith("verif_"))))
+
+
+def stop_on_fail(job, cmd, wd, log, spec_only=False):
     """after a timeout of the all-obligations run: one failed obligation (not the canary, not a benign-listed or known
     one) with its real property name, or None"""
     base = [c for c in cmd if c not in ("--json-ui", "--trace")]
@@ -390,6 +407,8 @@ def stop_on_fail(job, cmd, wd, log):
     for name, (fn, line, desc, file_) in props.items():
         key = "%s:%s: %s" % (job.name, fn, desc)
         if CANARY in desc or any(rx.search(key) for rx in skip) or (fn.startswith("h_") and fn != job.harness):
+            continue
+        if spec_only and not spec_obligation(job, name, fn, desc):
             continue
         sel.append(name)
     if not sel:
@@ -512,6 +531,17 @@ def run_unit(pid, jobs, tier, seed=0, only=None):
                     res.violations.append(o)
             res.undecided.append((job.name, info["partial_after_timeout"] + " (one failed obligation recovered with --stop-on-fail)"))
             continue
+        if info.get("degraded"):
+            # only counterexamples count; nothing is proved
+            bad = [o for o in rest if o.status == "FAILURE" and "unwinding assertion" not in o.desc
+                   and spec_obligation(job, o.prop, o.func, o.desc)
+                   and not any(p_ in ("*", pid) and rx.search(o.key()) for (p_, rx, r_) in benign)
+                   and not any(p_ == pid and rx.search(o.key()) for (p_, rx, t_) in known)]
+            for o in bad:
+                res.obls.append(o)
+                res.violations.append(o)
+            res.undecided.append((job.name, "DEGRADED (bounded search only, nothing proved): " + info["degraded"]))
+            continue
         if not job.no_canary:
             if not canaries:
                 res.undecided.append((job.name, "vacuity: no canary obligation generated"))
@@ -522,23 +552,6 @@ def run_unit(pid, jobs, tier, seed=0, only=None):
                 continue
         if not rest:
             res.undecided.append((job.name, "vacuity: zero obligations"))
-            continue
-        if info.get("degraded"):
-            # only counterexamples count; nothing is proved
-            # ... and only obligations of the specification itself (harness assertions, contract clauses, GUARANTEEs,
-            # the library's own assert()s): generic safety checks in code that now runs outside its contracts are noise
-            def spec_obl(o):
-                pr = o.prop or ""
-                return (o.func == job.harness or ".precondition." in pr or ".postcondition." in pr or
-                        o.desc.startswith("GUARANTEE") or
-                        (".assertion." in pr and (o.func in job.fuc or (o.func or "").startswith("verif_"))))
-            bad = [o for o in rest if o.status == "FAILURE" and "unwinding assertion" not in o.desc and spec_obl(o)
-                   and not any(p_ in ("*", pid) and rx.search(o.key()) for (p_, rx, r_) in benign)
-                   and not any(p_ == pid and rx.search(o.key()) for (p_, rx, t_) in known)]
-            for o in bad:
-                res.obls.append(o)
-                res.violations.append(o)
-            res.undecided.append((job.name, "DEGRADED (bounded search only, nothing proved): " + info["degraded"]))
             continue
         if job.loops and not any("loop_invariant_step" in (o.prop or "") for o in rest):
             res.undecided.append((job.name, "loop contracts were not applied (no loop-invariant obligations)"))
